@@ -228,22 +228,40 @@ def stream_node_counts(ctx, built, ntables=None):
 
 # ---- S-harv: harvest(tree, rng) ------------------------------------------------------------------------------
 class RecRandom(random.Random):
-    """random.Random that records what the model needs as an input stream"""
+    """random.Random that records what the model needs as an input stream. `getrandbits` is defined so that CPython keeps using the
+    getrandbits-based `_randbelow` (a subclass overriding only `random()` would silently switch algorithms)."""
     def __init__(self, *a):
-        super().__init__(*a); self.log = []
+        super().__init__(*a); self.log = []; self._nest = 0
+
+    def getrandbits(self, k):
+        return super().getrandbits(k)
+
+    def _rec(self, entry):
+        if self._nest == 0:
+            self.log.append(entry)
 
     def randint(self, a, b):
-        v = super().randint(a, b); self.log.append(("randint", a, b, v)); return v
+        self._nest += 1
+        try: v = super().randint(a, b)
+        finally: self._nest -= 1
+        self._rec(("randint", a, b, v)); return v
 
     def random(self):
-        v = super().random(); self.log.append(("random", v)); return v
+        v = super().random(); self._rec(("random", v)); return v
 
     def shuffle(self, x):
-        idx = list(range(len(x))); super().shuffle(idx)
-        x[:] = [x[i] for i in idx]; self.log.append(("shuffle", tuple(idx)))
+        idx = list(range(len(x)))
+        self._nest += 1
+        try: super().shuffle(idx)
+        finally: self._nest -= 1
+        x[:] = [x[i] for i in idx]; self._rec(("shuffle", tuple(idx)))
 
     def sample(self, population, k, **kw):
-        pop = list(population); idx = super().sample(range(len(pop)), k); self.log.append(("sample", tuple(idx)))
+        pop = list(population)
+        self._nest += 1
+        try: idx = super().sample(range(len(pop)), k)
+        finally: self._nest -= 1
+        self._rec(("sample", tuple(idx)))
         return [pop[i] for i in idx]
 
 
